@@ -7,6 +7,7 @@ import xzgen, gen
 TRUSTED = [
  'Coq 8.16.1 kernel; no native_compute', 'axioms: none',
  'theorems (Properties_C01.v): exact round trips of the layers that are proved (delta, ARM BCJ, VLI, LZMA2 uncompressed-chunk bound); range coder: rc_roundtrip_adaptive (concrete encoder model of range_encoder.h, with C integer widths and carry propagation, followed by the decoder model of range_decoder.h returns every bit sequence under every context-selection program, consuming exactly the bytes written, final code 0)',
+ 'LZMA symbol layer: lzma_symbol_coding_lossless (+ known-size variant): for every valid symbol sequence, lc/lp/pb and start state the decoder specification run on encode(enc_run syms ++ end marker) rebuilds the expansion, stops Finished and consumes exactly those bytes; tied to lzma_encoder.c by re-serialising, with the extracted model encoder, the symbols traced from every real raw-LZMA1 output (must reproduce the bytes exactly)',
  'correspondence for the range coder: harness/drv_rc.c drives the real rc_bit/rc_direct/rc_flush/rc_encode white-box with 0..4-byte output buffers; its bytes must equal RcEnc.encode (extracted) on the same decisions',
  'independent decoder: the Coq specification decoder (Xz.v/Lzma*.v, extracted) decodes the real encoder output back to the input; the library\'s own decoder is run as well',
  'NOT modelled: match finders, optimum parser, price tables (losslessness of the symbol choice is certified per run by decoding); threaded encoder scheduling (C08)',
@@ -145,6 +146,35 @@ def run(ctx):
             viol.append(dict(why='range encoder output differs from the proven encoder model (real %s..., model %s...): the bytes written are not the digits of the final low value, so the decoder does not recover the encoded bits' % (rh[:40], mh[:40]),
                              label='rc_encode/rc_shift_low', line=l[:4000], file='00' * (len(l) // 8), real=rh, model=mh))
     dist['rc_sequences'] = len(rlines); dist['rc_outputs_with_ff_or_00'] = rc_carry
+    # ---- LZMA symbol layer: the bytes of the real LZMA1 encoder must be exactly the model's serialisation (enc_run / enc_eopm /
+    # encode, the subject of lzma_symbol_coding_lossless) of the symbols the specification decoder reads from them
+    slines, smeta = [], []
+    for i in range(60 if ctx.quick() else 1500):
+        n = rng.choice([0, 1, 2, 30, 300, rng.randrange(0, 2500)])
+        d = (xzgen.gen_data(rng, max(1, n // 5)) * 6)[:n] if rng.random() < 0.6 else xzgen.gen_data(rng, n)
+        lc = rng.randrange(5); lp = rng.randrange(5 - lc); pb = rng.randrange(5)
+        fs = 'lzma1:dict=%s,lc=%d,lp=%d,pb=%d,mode=%s,mf=%s,nice=%d' % (rng.choice(['4KiB', '64KiB']), lc, lp, pb, rng.choice(['fast', 'normal']), rng.choice(['hc3', 'hc4', 'bt2', 'bt3', 'bt4']), rng.choice([2, 8, 32, 273]))
+        slines.append('enc 3 0 %d %d %s %s' % (rng.choice([0, 3]), rng.randrange(1 << 20), fs, d.hex() or '-')); smeta.append((d, lc, lp, pb, fs))
+    souts, sf = run_lines(enc, slines)
+    for f in sf: ctx.violation('encoder crashed', {'line': (f[0] or '')[:20000], 'stderr': f[1], 'kind': 'crash'})
+    tl, tm = [], []
+    for (d, lc, lp, pb, fs), l, o in zip(smeta, slines, souts):
+        if o is None: continue
+        t = o.split()
+        if t[0] != '1': viol.append(dict(why='raw LZMA1 encoder failed with %s' % t[0], label=fs, line=l[:300], file=d.hex())); continue
+        tl.append('lzmasyms %d %d %d %s' % (lc, lp, pb, t[1])); tm.append((d, fs, t[1]))
+    touts, tf = run_lines(orc, tl)
+    if tf: raise BuildError('oracle failed %r' % (tf[0],))
+    symstat = {}
+    for (d, fs, hx), o in zip(tm, touts):
+        n_eval += 1
+        t = o.split()
+        if t[0] != 'ok' or (bytes.fromhex(t[4]) if t[4] != '-' else b'') != d or int(t[1]) != len(hx) // 2:
+            viol.append(dict(why='LZMA1 encoder output is not the model serialisation of its own symbols (%s): the proven symbol/range encoder model no longer describes lzma_encoder.c / range_encoder.h, or the stream does not decode to the input' % ' '.join(t[:4]), label=fs, line=fs, file=d.hex(), stream=hx[:100000]))
+        else:
+            for kv in t[3].split(','):
+                k, v = kv.split('='); symstat[k] = symstat.get(k, 0) + int(v)
+    dist['lzma_symbol_traces'] = len(tl); dist['lzma_symbols'] = symstat
     oouts, ofails = run_lines(orc, olines)
     if ofails: raise BuildError('oracle failed %r' % (ofails[0],))
     for (j, want), o in zip(ometa, oouts):
